@@ -114,6 +114,101 @@ def check_run(case, dist, na, seed, lines):
     return P, W, r, "solved"
 
 
+def api_solve_run(case, dist, na, seed):
+    """the same kind of instance through pydcop.infrastructure.run.solve(), the API convenience that hides orchestrator and
+    agents: observed when it returns (assignment returned, status of the orchestrator it built)"""
+    import contextlib
+    import io
+    import logging
+    import os
+    import random as _r
+    import shutil
+    import sys
+    import tempfile
+    import threading
+    import time
+    from pydcop.infrastructure import run as runmod
+
+    logging.disable(logging.CRITICAL)
+    rng = _r.Random(seed)
+    dcop, agents, algo_def, cg = orch.build_problem(case, "dpop", {}, na)
+    W = {"case": case, "dist": dist, "nagents": na, "seed": seed, "api": "infrastructure.run.solve"}
+    try:
+        distribution = orch.make_distribution(dist, cg, agents, rng, seed)
+    except Exception:
+        return [], W, {}, "distribution-failed"
+    r = {"mapping": {a: list(cs) for a, cs in distribution.mapping().items()}, "errors": []}
+    W["mapping"] = r["mapping"]
+    holder = {}
+    orig = runmod.run_local_thread_dcop
+
+    def build(*a, **k):
+        holder["o"] = orig(*a, **k)
+        return holder["o"]
+
+    out = {}
+    d = tempfile.mkdtemp(prefix="pvc22_")
+    cwd = os.getcwd()
+    old_si = sys.getswitchinterval()
+
+    def body():
+        try:
+            with contextlib.redirect_stdout(io.StringIO()):
+                out["assignment"] = runmod.solve(dcop, algo_def, distribution, graph=cg, timeout=T)
+        except BaseException as e:
+            out["exception"] = "%s: %s" % (type(e).__name__, e)
+
+    runmod.run_local_thread_dcop = build
+    try:
+        os.chdir(d)
+        sys.setswitchinterval(1e-5)
+        t0 = time.time()
+        th = threading.Thread(target=body, name="pv_driver", daemon=True)
+        th.start()
+        th.join(T + 25)
+        r["run_wall"] = time.time() - t0
+        blocked = th.is_alive()
+    finally:
+        sys.setswitchinterval(old_si)
+        runmod.run_local_thread_dcop = orig
+        os.chdir(cwd)
+        shutil.rmtree(d, ignore_errors=True)
+    o = holder.get("o")
+    r["status"] = getattr(o, "status", None)
+    W["status"] = r["status"]
+    P = []
+    if blocked:
+        if o is not None:
+            try:
+                o.stop_agents(2)
+                o.stop()
+            except Exception:
+                pass
+        return [("harness:api-solve-watchdog", "solve() had not returned after %d s" % (T + 25))], W, r, "blocked"
+    if "exception" in out:
+        P.append(("api-solve:exception", "infrastructure.run.solve raised %s" % out["exception"]))
+        return P, W, r, "error"
+    if r["status"] == "TIMEOUT":
+        P.append(("api-solve:ended-by-timeout", "infrastructure.run.solve(dpop, timeout=%s) returned after %.1f s with orchestrator.status == 'TIMEOUT' although every computation had finished; assignment %r, mapping %r" % (
+            T, r["run_wall"], out.get("assignment"), r["mapping"])))
+        return P, W, r, "timeout"
+    asg = out.get("assignment")
+    vm = gen.var_map(case)
+    if not isinstance(asg, dict) or sorted(asg) != sorted(vm):
+        P.append(("api-solve:assignment-incomplete", "solve() returned %r for variables %r (mapping %r)" % (asg, sorted(vm), r["mapping"])))
+        return P, W, r, "incomplete"
+    for n, val in asg.items():
+        if val not in vm[n]["domain"]:
+            P.append(("api-solve:value-outside-domain", "%s = %r not in %r" % (n, val, vm[n]["domain"])))
+            return P, W, r, "bad-value"
+    got = gen.total_cost(case, asg)
+    best, _ = gen.brute_force(case)
+    if not gen.close(got, best, 1e-9):
+        P.append(("api-solve:not-optimal", "%s problem: solve() returned %r costing %r, optimum %r" % (case["objective"], asg, got, best)))
+    r["metrics"] = {"assignment": asg}
+    return P, W, r, "solved"
+
+
 def worker(job):
     R = common.WorkerResult()
     seed = job["seed"]
@@ -123,7 +218,11 @@ def worker(job):
         rseed = (seed * 1000003 + i * 17) & 0x7FFFFFFF
         lines = bool(job.get("lines")) and i % 2 == 0
         try:
-            P, W, r, outcome = check_run(case, dist, na, rseed, lines)
+            if i % 4 == 3:
+                P, W, r, outcome = api_solve_run(case, dist, na, rseed)
+                R.count("runs_through_infrastructure_run_solve")
+            else:
+                P, W, r, outcome = check_run(case, dist, na, rseed, lines)
         except Exception:
             import traceback
 
